@@ -318,6 +318,11 @@ fn oracle(cfg: &Cfg, mode: Mode, data: &[u8], w: &mut World, op: &ROp, before: &
     }
     let st = w.reader.verif_state();
     let src = w.src.borrow();
+    // judged first: the content checks below return early when the window is wrong, which is what
+    // happens to a reader that goes on reading behind a failure
+    if src.calls_after_terminal > 0 {
+        p.push(("reads", format!("the source was called {} time(s) after it had reported end of input / an error", src.calls_after_terminal)));
+    }
     let stream = &data[w.model.base..cfg.fault_at.map_or(data.len(), |k| k.min(data.len())).max(w.model.base)];
     let delivered_to_chain = src.pos - w.model.base.min(src.pos);
     if w.model.resynced {
@@ -423,9 +428,6 @@ fn oracle(cfg: &Cfg, mode: Mode, data: &[u8], w: &mut World, op: &ROp, before: &
     let ok = src.ok_reads - before.ok_reads;
     let intr = src.interrupted - before.interrupted;
     let sizes: Vec<usize> = src.log[before.log_len..].iter().filter_map(|a| if let Ans::Deliver(k) = a { Some(*k) } else { None }).collect();
-    if src.calls_after_terminal > 0 {
-        p.push(("reads", format!("the source was called {} time(s) after it had reported end of input / an error", src.calls_after_terminal)));
-    }
     let need: Option<usize> = match op {
         ROp::Request(n) => Some(*n),
         ROp::ByteAt(k) => Some(k.saturating_add(1)),
